@@ -363,6 +363,223 @@ def devirtualise(f):
     return n
 
 
+def _state_transfer_stmt(st, known, taken):
+    """effect of one statement on the map  local -> ('b', bool) | ('v', variant name)"""
+    if not isinstance(st.get("lhs"), dict):
+        if st.get("k") == "setdiscr" and isinstance(st.get("place"), dict):
+            known.pop(st["place"].get("l"), None)
+        return
+    l = st["lhs"]["l"]
+    if st["lhs"].get("p"):
+        known.pop(l, None)
+        return
+    if st["k"] != "assign" or l in taken:
+        known.pop(l, None)
+        return
+    rv = st["rv"]
+    v = None
+    if rv["k"] == "use":
+        op = rv.get("op")
+        k = op.get("k") if isinstance(op, dict) else None
+        if isinstance(k, dict) and k.get("ty") == "bool" and isinstance(k.get("v"), bool):
+            v = ("b", k["v"])
+        else:
+            src = _plain(op)
+            if src is not None and src in known:
+                v = known[src]
+    elif rv["k"] == "aggr" and rv.get("ak") == "adt" and rv.get("adt") in ("std::option::Option", "core::option::Option", "std::result::Result", "core::result::Result") \
+            and rv.get("variant") in ("Some", "None", "Ok", "Err"):
+        v = ("v", rv["variant"])
+    if v is None:
+        known.pop(l, None)
+    else:
+        known[l] = v
+
+
+def _succ_edges(t):
+    """[(key, target)] of the normal successors of a terminator; key identifies the edge for redirection"""
+    k = t["k"]
+    if k == "goto":
+        return [(("t",), t["t"])]
+    if k in ("call", "drop", "assert"):
+        return [(("t",), t["t"])] if isinstance(t.get("t"), int) else []
+    if k == "switch":
+        return [(("s", i), bb) for i, (v, bb) in enumerate(t["targets"])] + [(("o",), t["otherwise"])]
+    return []
+
+
+def thread_states(f, max_chain=14, max_clones=80):
+    """Generalisation of thread_function / thread_try: the constant (bool) or variant (Option/Result) a plain local holds is computed by a forward
+    data-flow over the whole body (a value survives joins only when every incoming path agrees), and threading starts at any *edge* where such a
+    value is known - not only at the block that assigns it.  `let mut found = None; for x in xs { if p(x) { found = Some(x); break } }
+    let x = found?;` leaves the loop through its normal end with `found` still None on every path, and through the `break` with Some: both
+    paths reach the same `?`, and each is routed to the arm its value selects."""
+    import copy as _copy
+    blocks = f["blocks"]
+    n0 = len(blocks)
+    if n0 > 600:
+        return 0
+    taken = _address_taken(f)
+    locs = f["locals"]
+    # ---- forward data-flow ---------------------------------------------------------------------------------------------------------------
+    entry = {0: {}}
+    work = [0]
+    out_state = {}
+    it = 0
+    while work and it < 20000:
+        it += 1
+        bi = work.pop()
+        b = blocks[bi]
+        known = dict(entry[bi])
+        for st in b["stmts"]:
+            _state_transfer_stmt(st, known, taken)
+        t = b["term"]
+        if t["k"] == "call" and isinstance(t.get("dest"), dict):
+            dl = t["dest"]["l"]
+            known.pop(dl, None)
+            if _is_local(t["dest"]) and _fn_path(t).endswith("FromResidual::from_residual") and dl < len(locs) and dl not in taken:
+                ty = locs[dl]["ty"]
+                if "Result<" in ty[:40]:
+                    known[dl] = ("v", "Err")
+                elif "Option<" in ty[:40]:
+                    known[dl] = ("v", "None")
+        out_state[bi] = known
+        succs = [tg for _, tg in _succ_edges(t)]
+        if isinstance(t.get("unwind"), int):
+            succs.append(t["unwind"])
+        for sb in succs:
+            if sb is None or sb >= n0:
+                continue
+            if sb not in entry:
+                entry[sb] = dict(known)
+                work.append(sb)
+            else:
+                old = entry[sb]
+                new = {k: v for k, v in old.items() if known.get(k) == v}
+                if new != old:
+                    entry[sb] = new
+                    work.append(sb)
+    # ---- threading from edges ---------------------------------------------------------------------------------------------------------------
+    done = 0
+    for p in range(n0):
+        b = blocks[p]
+        if b.get("cleanup") or p not in out_state or b.get("cloned_from") is not None:
+            continue
+        base_known = out_state[p]
+        if not base_known:
+            continue
+        for (ekey, start) in _succ_edges(b["term"]):
+            if done >= max_clones or start is None or start >= n0:
+                continue
+            known = dict(base_known)
+            cur = start
+            chain = []
+            found = None
+            for _step in range(max_chain):
+                if cur is None or cur >= n0 or cur == p or cur in chain:
+                    break
+                cb = blocks[cur]
+                if cb.get("cleanup"):
+                    break
+                kn = dict(known)
+                for st in cb["stmts"]:
+                    _state_transfer_stmt(st, kn, taken)
+                ct = cb["term"]
+                if ct["k"] == "switch":
+                    dl = _plain(ct["discr"])
+                    tgt = None
+                    if ct.get("dty") == "bool" and dl in kn and kn[dl][0] == "b":
+                        val = kn[dl][1]
+                        for v, bb in ct["targets"]:
+                            if bool(v) == val:
+                                tgt = bb
+                        if tgt is None and val not in [bool(v) for v, _ in ct["targets"]]:
+                            tgt = ct["otherwise"]
+                    else:
+                        for st in cb["stmts"]:
+                            if st["k"] == "assign" and _is_local(st.get("lhs"), dl) and st["rv"]["k"] == "discr" and _is_local(st["rv"].get("place")):
+                                m = st["rv"]["place"]["l"]
+                                # the value tested is the one held *before* this block's later statements: use the state at the discr read
+                                k0 = dict(known)
+                                for st2 in cb["stmts"]:
+                                    if st2 is st:
+                                        break
+                                    _state_transfer_stmt(st2, k0, taken)
+                                if m in k0 and k0[m][0] == "v":
+                                    vt = {nm: int(v) for v, nm in st["rv"].get("variants", [])}
+                                    if k0[m][1] in vt:
+                                        for v, bb in ct["targets"]:
+                                            if int(v) == vt[k0[m][1]]:
+                                                tgt = bb
+                                        if tgt is None and vt[k0[m][1]] not in [int(v) for v, _ in ct["targets"]]:
+                                            tgt = ct["otherwise"]
+                    if tgt is not None and chain is not None:
+                        found = (None, cur, tgt)
+                    break
+                if ct["k"] == "call" and _fn_path(ct).endswith("Try::branch") and len(ct.get("args", [])) == 1 and _is_local(ct.get("dest")) and isinstance(ct.get("t"), int):
+                    m = _plain(ct["args"][0])
+                    if m in kn and kn[m][0] == "v" and ct["t"] < n0:
+                        K = ct["t"]
+                        kb = blocks[K]
+                        if not kb.get("cleanup") and kb["term"]["k"] == "switch":
+                            dl = _plain(kb["term"]["discr"])
+                            vt = None
+                            for st in kb["stmts"]:
+                                if st["k"] == "assign" and _is_local(st.get("lhs"), dl) and st["rv"]["k"] == "discr" and _is_local(st["rv"].get("place"), ct["dest"]["l"]):
+                                    vt = {nm: int(v) for v, nm in st["rv"].get("variants", [])}
+                            cls = "Continue" if kn[m][1] in ("Ok", "Some") else "Break"
+                            if vt and cls in vt:
+                                for v, bb in kb["term"]["targets"]:
+                                    if int(v) == vt[cls]:
+                                        found = (cur, K, bb)
+                    break
+                # (blocks ending in a call are not copied: a copy would show the call site twice to every rule that enumerates sites)
+                if ct["k"] in ("goto", "drop", "assert"):
+                    if ct["k"] == "call":
+                        if isinstance(ct.get("dest"), dict):
+                            kn.pop(ct["dest"]["l"], None)
+                        # a call that receives a tracked local by value may consume it; by reference it cannot change a non-address-taken local
+                        for a_ in ct.get("args", []):
+                            pl_ = _plain(a_)
+                            if pl_ is not None and isinstance(a_, dict) and "m" in a_:
+                                kn.pop(pl_, None)
+                    elif ct["k"] == "drop" and isinstance(ct.get("place"), dict):
+                        kn.pop(ct["place"].get("l"), None)
+                    known = kn
+                    chain.append(cur)
+                    cur = ct.get("t")
+                    if not known:
+                        break
+                    continue
+                break
+            if found is None:
+                continue
+            J, K, tgt = found
+            if not chain and J is None and K == start:
+                seq = [K]
+            else:
+                seq = chain + ([J] if J is not None else []) + [K]
+            base = len(blocks)
+            for i, bi in enumerate(seq):
+                nb = _copy.deepcopy(blocks[bi])
+                nb["cloned_from"] = bi
+                if bi == K and i == len(seq) - 1:
+                    nb["term"] = {"k": "goto", "t": tgt, "sp": blocks[bi]["term"].get("sp"), "threaded": K}
+                else:
+                    nb["term"]["t"] = base + i + 1
+                blocks.append(nb)
+            t = b["term"]
+            if ekey[0] == "t":
+                t["t"] = base
+            elif ekey[0] == "s":
+                t["targets"][ekey[1]][1] = base
+            else:
+                t["otherwise"] = base
+            t["state_threaded"] = True
+            done += 1
+    return done
+
+
 def normalize_program(d):
     n = 0
     for f in d.get("functions", []):
@@ -370,4 +587,5 @@ def normalize_program(d):
             n += devirtualise(f)
             n += thread_function(f)
             n += thread_try(f)
+            n += thread_states(f)
     return n
